@@ -34,6 +34,21 @@ func jitter(r uint64) {
 	}
 }
 
+// A watchdog expiry is reported only if a fresh run of the same case expires again
+// (an overloaded machine must not produce a finding).
+var hangSeen = map[string]bool{}
+
+func confirmHang(kind string, hseed uint64, rerun func()) bool {
+	k := fmt.Sprintf("%s/%d", kind, hseed)
+	if hangSeen[k] {
+		return true
+	}
+	hangSeen[k] = true
+	run.Count("watchdog/" + kind + "/first-expiry")
+	rerun()
+	return false
+}
+
 func waitTimeout(wg *sync.WaitGroup, d time.Duration) bool {
 	done := make(chan struct{})
 	go func() { wg.Wait(); close(done) }()
@@ -142,7 +157,9 @@ func onceCase(hseed uint64) {
 		}(g)
 	}
 	if !waitTimeout(&wg, 20*time.Second) {
-		run.OracleFail(id, "once-hang", fmt.Sprintf("Once.Do did not return within 20s; trace so far %v", trace), rep)
+		if confirmHang("once", hseed, func() { onceCase(hseed) }) {
+			run.OracleFail(id, "once-hang", fmt.Sprintf("Once.Do did not return within 20s (twice); trace so far %v", trace), rep)
+		}
 		return
 	}
 	line := fmt.Sprintf("O %d %s", len(trace), strings.Join(trace, " "))
@@ -206,7 +223,7 @@ func setCase(hseed uint64) {
 	calls := make([]call, n)
 	h0, k0 := common.Pick(r, hosts), common.Pick(r, keys)
 	for i := range calls {
-		calls[i] = call{host: h0, key: k0, scheme: auth.SchemeBearer, j: r.U64(), fail: r.Chance(1, 8), cancel: r.Chance(1, 6)}
+		calls[i] = call{host: h0, key: k0, scheme: common.Pick(r, []auth.Scheme{auth.SchemeBearer, auth.SchemeBearer, auth.SchemeBasic}), j: r.U64(), fail: r.Chance(1, 8), cancel: r.Chance(1, 6)}
 		if r.Chance(1, 3) {
 			calls[i].host = common.Pick(r, hosts)
 		}
@@ -214,7 +231,7 @@ func setCase(hseed uint64) {
 			calls[i].key = common.Pick(r, keys)
 		}
 	}
-	tokenOf := func(c call, i int) string { return fmt.Sprintf("tok|%s|%s|%d", c.host, c.key, i) }
+	tokenOf := func(c call, i int) string { return fmt.Sprintf("tok|%s|%s|%s|%d", c.host, c.scheme, c.key, i) }
 	// tight: all calls start together and fetch without delay, so that the
 	// follow-up Set of the single-context cache (key "") of different calls overlap
 	tight := r.Chance(1, 2)
@@ -263,18 +280,20 @@ func setCase(hseed uint64) {
 			// Set returns what its own fetch returned, or the result of a concurrent
 			// Set for the SAME host, scheme and key (also for the single-context cache:
 			// only its GetToken ignores the key)
-			want := fmt.Sprintf("tok|%s|%s|", c.host, c.key)
+			want := fmt.Sprintf("tok|%s|%s|%s|", c.host, c.scheme, c.key)
 			if !strings.HasPrefix(tok, want) {
 				sig := "set-cross-key"
 				mu.Lock()
-				fails = append(fails, violation{sig, fmt.Sprintf("%s cache: Set(%q, Bearer, %q) returned %q, a token fetched for another host or scope set", flavour, c.host, c.key, tok)})
+				fails = append(fails, violation{sig, fmt.Sprintf("%s cache: Set(%q, %v, %q) returned %q, a token fetched for another host, scheme or scope set", flavour, c.host, c.scheme, c.key, tok)})
 				mu.Unlock()
 			}
 		}(i, c)
 	}
 	close(start)
 	if !waitTimeout(&wg, 20*time.Second) {
-		run.OracleFail(id, "set-hang", "concurrentCache.Set did not return within 20s", rep)
+		if confirmHang("set", hseed, func() { setCase(hseed) }) {
+			run.OracleFail(id, "set-hang", "concurrentCache.Set did not return within 20s (twice)", rep)
+		}
 		return
 	}
 	setTraceCase(tc, "set-"+flavour)
@@ -284,16 +303,18 @@ func setCase(hseed uint64) {
 	run.Nontrivial(fmt.Sprintf("K%d", hseed))
 	for _, h := range hosts {
 		for _, k := range keys {
-			tok, err := cache.GetToken(context.Background(), h, auth.SchemeBearer, k)
-			if err != nil {
-				continue
-			}
-			want := fmt.Sprintf("tok|%s|%s|", h, k)
-			if flavour == "single" {
-				want = fmt.Sprintf("tok|%s|", h)
-			}
-			if !strings.HasPrefix(tok, want) {
-				fails = append(fails, violation{"cache-cross-key", fmt.Sprintf("GetToken(%q, Bearer, %q) = %q", h, k, tok)})
+			for _, sch := range []auth.Scheme{auth.SchemeBearer, auth.SchemeBasic} {
+				tok, err := cache.GetToken(context.Background(), h, sch, k)
+				if err != nil {
+					continue
+				}
+				want := fmt.Sprintf("tok|%s|%s|%s|", h, sch, k)
+				if flavour == "single" {
+					want = fmt.Sprintf("tok|%s|%s|", h, sch)
+				}
+				if !strings.HasPrefix(tok, want) {
+					fails = append(fails, violation{"cache-cross-key", fmt.Sprintf("GetToken(%q, %v, %q) = %q", h, sch, k, tok)})
+				}
 			}
 		}
 	}
@@ -326,15 +347,19 @@ func mixCase(hseed uint64) {
 		g            *regState
 		repo, method string
 		hints        []string
+		ghints       []string // global scope hints (WithScopes)
+		alias        bool     // connect to the registry's alias address, Host = its name
 		j            uint64
 		valid        bool
 		cancelFetch  bool // the caller's context is cancelled while its token request is in flight
 		cancel       context.CancelFunc
 	}
-	type jobKey struct{}
 	jobs := make([]job, n)
+	w.perJobFetch = map[int]int{}
+	w.noRedirect = true
 	w.fetchHook = func(req *http.Request) error {
-		if jb, ok := req.Context().Value(jobKey{}).(*job); ok && jb.cancelFetch {
+		if i, ok := req.Context().Value(jobKey{}).(int); ok && jobs[i].cancelFetch {
+			jb := &jobs[i]
 			time.Sleep(300 * time.Microsecond)
 			jb.cancel()
 			return req.Context().Err()
@@ -343,8 +368,8 @@ func mixCase(hseed uint64) {
 	}
 	for i := range jobs {
 		g := common.Pick(r, w.regs)
-		jobs[i] = job{g: g, repo: common.Pick(r, []string{"lib/a", "lib/a", "lib/b"}), method: common.Pick(r, []string{"GET", "GET", "DELETE"}),
-			hints: genHints(r), j: r.U64(), valid: w.validFor(g, oauth2) && g.mode != modeWeird}
+		jobs[i] = job{g: g, repo: common.Pick(r, []string{"lib/a", "lib/a", "lib/b"}), method: common.Pick(r, []string{"GET", "GET", "DELETE", "PUT"}),
+			hints: genHints(r), ghints: genHints(r), alias: r.Chance(1, 6), j: r.U64(), valid: w.validFor(g, oauth2) && g.mode != modeWeird}
 		if r.Chance(1, 6) {
 			jobs[i].cancelFetch = true
 			jobs[i].valid = false
@@ -361,11 +386,23 @@ func mixCase(hseed uint64) {
 			ctx, cancel := context.WithCancel(context.Background())
 			defer cancel()
 			jb.cancel = cancel
-			ctx = context.WithValue(ctx, jobKey{}, jb)
+			ctx = context.WithValue(ctx, jobKey{}, i)
 			if len(jb.hints) > 0 {
 				ctx = auth.WithScopesForHost(ctx, jb.g.host, clone(jb.hints)...)
 			}
-			req, _ := http.NewRequestWithContext(ctx, jb.method, "http://"+jb.g.host+"/v2/"+jb.repo+"/manifests/latest", nil)
+			if len(jb.ghints) > 0 {
+				ctx = auth.WithScopes(ctx, clone(jb.ghints)...)
+			}
+			var rd io.Reader
+			if jb.method == "PUT" {
+				rd = strings.NewReader("manifest-bytes") // rewindable body, re-sent after the challenge
+			}
+			target := jb.g.host
+			if jb.alias {
+				target = jb.g.alias
+			}
+			req, _ := http.NewRequestWithContext(ctx, jb.method, "http://"+target+"/v2/"+jb.repo+"/manifests/latest", rd)
+			req.Host = jb.g.host
 			req.Header.Set("X-Verif-Req", fmt.Sprintf("%d", i))
 			res, err := client.Do(req)
 			results[i] = classifyResult(res, err)
@@ -376,7 +413,9 @@ func mixCase(hseed uint64) {
 		}(i, jb)
 	}
 	if !waitTimeout(&wg, 30*time.Second) {
-		run.OracleFail(id, "do-hang", "concurrent Client.Do calls did not return within 30s", rep)
+		if confirmHang("do", hseed, func() { mixCase(hseed) }) {
+			run.OracleFail(id, "do-hang", "concurrent Client.Do calls did not return within 30s (twice)", rep)
+		}
 		return
 	}
 	setTraceCase(tc, "mix-"+flavour)
@@ -397,6 +436,9 @@ func mixCase(hseed uint64) {
 		run.OracleFail(id, "budget", fmt.Sprintf("concurrent mix %d: %d token fetches for %d requests", hseed, total, n), rep)
 	}
 	for i, jb := range jobs {
+		if c := w.perJobFetch[i]; c > 1 {
+			run.OracleFail(id, "budget", fmt.Sprintf("concurrent mix %d: request %d fetched a token %d times", hseed, i, c), rep)
+		}
 		if c := w.perReq[fmt.Sprintf("%d", i)]; c > 3 {
 			run.OracleFail(id, "budget", fmt.Sprintf("concurrent mix %d: request %d was sent %d times to the registry", hseed, i, c), rep)
 		}
